@@ -21,7 +21,10 @@
         [single_group_absolute]                 the same transaction configured WITH an absolute index
    D. non-vacuity: two-member groups of application calls for is-updatable / is-deletable /
       unprotected-updatable / unprotected-deletable (the close-to detectors have theirs in GroupSem2.CloseGroupWitness),
-      and the one-transaction group on which both verdicts report. *)
+      and the one-transaction group on which both verdicts report.
+   E. ONE statement for all eight detectors the driver runs in group mode: [danger_table] (what each detector looks
+      for), [txn_dangerous], [group_side] (the side conditions, per domain needed), [group_no_miss_all_partial],
+      [group_verdict_all_partial], [group_cleared_all_partial]. *)
 From Coq Require Import String List NArith ZArith Bool Arith Lia Permutation.
 From Tealer Require Import Tables LeafPrelude Leaves Syntax Parse Cfg StackAst Keys Analysis Domains Detect Group Driver.
 From Tealer Require Import Paths Runs Eval Exec LeafLemmas StackLemmas SingleLemmas SolverLemmas SearchLemmas ExecLemmas TypeLemmas
@@ -725,7 +728,7 @@ Theorem single_group_eq_contract_refuted :
   ~ (forall funcs checks dtype vtypes t k f r fuel name ps,
        single_contract t k -> nth_error funcs k = Some (f, r) -> relative_accessors [t] t = [] ->
        eligible dtype vtypes t -> name <> "group-size-check" -> g_abs t = None ->
-       graph_ok f -> run_all f 100 = Done r ->
+       graph_ok f -> (exists fuelr, run_all f fuelr = Done r) ->
        In (name, checks) detectors ->
        run_detector f r fuel name checks = Done ps ->
        (txn_vulnerable funcs checks dtype vtypes [t] t = true <-> ps <> [])).
@@ -738,7 +741,7 @@ Proof.
   - discriminate.
   - reflexivity.
   - exact w_graph_ok.
-  - exact w_run_all.
+  - exists 100. exact w_run_all.
   - simpl. auto.
   - exact (proj1 w_differ).
   - exact (H1 (proj2 w_differ) eq_refl).
@@ -755,6 +758,175 @@ Proof.
                 (or_introl (conj eq_refl eq_refl)) eq_refl eq_refl Hel 100 "can-close-account" []) as H.
   assert (Hn : "can-close-account" <> "group-size-check") by discriminate.
   destruct (H Hn eq_refl Hj (proj1 w_differ)) as [H1 _]. exact (H1 (proj2 w_differ) eq_refl).
+Qed.
+
+(* ====================================================================== *)
+(* E. one statement for every detector the driver runs in group mode        *)
+(* ====================================================================== *)
+(* what a detector looks for: a transaction kind (label of the kind domain, TypeEnum, OnCompletion), a non-zero
+   address in a field, a fee above MAX_TRANSACTION_COST *)
+Record danger := mkDanger { d_kind : option (string * N * N); d_addr : option string; d_fee : bool }.
+
+Definition danger_table : list (string * danger) :=
+  [("rekey-to", mkDanger None (Some "RekeyTo") false);
+   ("can-close-account", mkDanger (Some ("Pay", 1%N, 0%N)) (Some "CloseRemainderTo") false);
+   ("can-close-asset", mkDanger (Some ("Axfer", 4%N, 0%N)) (Some "AssetCloseTo") false);
+   ("missing-fee-check", mkDanger None None true);
+   ("is-updatable", mkDanger (Some ("ApplUpdateApplication", 6%N, 4%N)) None false);
+   ("is-deletable", mkDanger (Some ("ApplDeleteApplication", 6%N, 5%N)) None false);
+   ("unprotected-updatable", mkDanger (Some ("ApplUpdateApplication", 6%N, 4%N)) (Some "Sender") false);
+   ("unprotected-deletable", mkDanger (Some ("ApplDeleteApplication", 6%N, 5%N)) (Some "Sender") false)].
+
+(* the table has one row per group-mode detector, in the driver's order *)
+Lemma danger_table_names : map fst danger_table = map fst group_checks.
+Proof. vm_compute. reflexivity. Qed.
+
+(* only application calls have an ApplicationID that matters *)
+Definition kind_ap (ty ap : N) : N := if (ty =? 6)%N then ap else 0%N.
+
+(* member p of the concrete group G carries the dangerous value d (a: the address, ap: the application, fee) *)
+Definition txn_dangerous (d : danger) (G : cgroup) (p : N) (a : string) (ap : N) (fee : Z) : Prop :=
+  (forall L ty oc, d_kind d = Some (L, ty, oc) -> cg_kind G p ty oc (kind_ap ty ap)) /\
+  (forall fld, d_addr d = Some fld -> cg_field G p fld = VAddr a /\ a <> "ZERO" /\ is_marker a = false) /\
+  (d_fee d = true -> cg_field G p "Fee" = VInt fee /\ (MAX_TRANSACTION_COSTz < fee <= MAX_UINT64z)%Z).
+
+(* the hypotheses under which the analyses are sound on the configured contracts (the known findings D2, D16, D19
+   and the fragment of Spec/Eval.v excluded), for the domains d needs; the concrete group is consistent with the
+   configuration and every configured contract approves it *)
+Definition group_side (d : danger) (funcs : list (func * fn_result)) (group : list gtxn) (G : cgroup)
+           (posn : string -> N) (a : string) (ap : N) : Prop :=
+  group_base_ok funcs group /\
+  (forall L ty oc, d_kind d = Some (L, ty, oc) -> group_kind_ok funcs group posn L ty oc (kind_ap ty ap)) /\
+  (d_fee d = true -> forall o k f r fam, In o group -> runs o k -> nth_error funcs k = Some (f, r) ->
+                                         fam_used group posn o fam -> fee_leaves_ok f fam) /\
+  consistent_with (match d_addr d with
+                   | Some fld => addr_side funcs group posn fld a
+                   | None => fun _ _ _ => True
+                   end) funcs group G posn.
+
+Lemma eligible_stateless_inv vt t :
+  eligible "STATELESS" vt t -> g_has_logic_sig t = true /\ forall l, vt = Some l -> In (g_type t) l.
+Proof.
+  intros (H1 & _ & H3). split; [|exact H3].
+  destruct (g_has_logic_sig t); [reflexivity|]. exfalso. apply H1. auto.
+Qed.
+
+Lemma eligible_statefull_inv vt t : eligible "STATEFULL" vt t -> exists kapp, g_application t = Some kapp.
+Proof.
+  intros (_ & H2 & _). destruct (g_application t) as [kapp|]; [eauto|]. exfalso. apply H2. auto.
+Qed.
+
+Section AllDetectors.
+  Variable funcs : list (func * fn_result).
+  Variable group : list gtxn.
+  Variable G : cgroup.
+  Variable posn : string -> N.
+  Variable t : gtxn.
+  Variable a : string.
+  Variable ap : N.
+  Variable fee : Z.
+  Hypothesis Ht : In t group.
+
+  (* SEMANTIC CLAUSE OF C13, every group-mode detector: name is a detector of Driver.group_checks, (dtype, vt) its row
+     of the regenerated detector_table, d its row of danger_table *)
+  Theorem group_no_miss_all_partial name checks dtype vt d :
+    In (name, checks) group_checks ->
+    Parse.assoc name detector_table = Some (dtype, vt) ->
+    Parse.assoc name danger_table = Some d ->
+    group_side d funcs group G posn a ap ->
+    eligible dtype vt t ->
+    txn_dangerous d G (posn (g_id t)) a ap fee ->
+    txn_vulnerable funcs checks dtype vt group t = true.
+  Proof.
+    intros Hin Htab Hd (Hok & Hkind & Hfee & Hcons) Hel (Dk & Da & Df).
+    unfold group_checks, detectors in Hin. cbn [filter String.eqb Ascii.eqb Bool.eqb negb] in Hin. simpl in Hin.
+    destruct Hin as [E|[E|[E|[E|[E|[E|[E|[E|[]]]]]]]]]; inversion E; subst name checks; clear E;
+      vm_compute in Htab; inversion Htab; subst dtype vt; clear Htab;
+      vm_compute in Hd; inversion Hd; subst d; clear Hd;
+      cbn [d_kind d_addr d_fee] in Hkind, Hfee, Hcons, Dk, Da, Df.
+    - (* rekey-to *)
+      destruct (Da _ eq_refl) as (Hfld & Hz & Hm). destruct (eligible_stateless_inv _ _ Hel) as [Hls _].
+      exact (group_rekey_no_miss_partial funcs group G posn a Hcons Hok t Ht Hfld Hz Hm Hls).
+    - (* can-close-account *)
+      destruct (Da _ eq_refl) as (Hfld & Hz & Hm). destruct (eligible_stateless_inv _ _ Hel) as [Hls Hty].
+      exact (group_closeto_no_miss_partial funcs group G posn a t Hok Ht Hz Hm Hls Hcons (Hkind _ _ _ eq_refl)
+               (Hty _ eq_refl) (Dk _ _ _ eq_refl) Hfld).
+    - (* can-close-asset *)
+      destruct (Da _ eq_refl) as (Hfld & Hz & Hm). destruct (eligible_stateless_inv _ _ Hel) as [Hls Hty].
+      exact (group_assetcloseto_no_miss_partial funcs group G posn a t Hok Ht Hz Hm Hls Hcons (Hkind _ _ _ eq_refl)
+               (Hty _ eq_refl) (Dk _ _ _ eq_refl) Hfld).
+    - (* missing-fee-check *)
+      destruct (Df eq_refl) as [Hf Hr]. destruct (eligible_stateless_inv _ _ Hel) as [Hls _].
+      assert (Hgo : group_ok funcs group posn).
+      { destruct Hok as [H1 H2 H3 H4]. constructor; try assumption. exact (Hfee eq_refl). }
+      exact (group_fee_no_miss funcs group G posn t fee Hcons Hgo Ht Hls Hf Hr).
+    - (* is-updatable *)
+      destruct (eligible_statefull_inv _ _ Hel) as [kapp Happ].
+      exact (group_updatable_no_miss_partial funcs group G posn t kapp ap Hcons Hok Ht Happ (Hkind _ _ _ eq_refl)
+               (Dk _ _ _ eq_refl)).
+    - (* is-deletable *)
+      destruct (eligible_statefull_inv _ _ Hel) as [kapp Happ].
+      exact (group_deletable_no_miss_partial funcs group G posn t kapp ap Hcons Hok Ht Happ (Hkind _ _ _ eq_refl)
+               (Dk _ _ _ eq_refl)).
+    - (* unprotected-updatable *)
+      destruct (Da _ eq_refl) as (Hfld & Hz & Hm). destruct (eligible_statefull_inv _ _ Hel) as [kapp Happ].
+      exact (group_unprotected_updatable_no_miss_partial funcs group G posn a t kapp ap Hcons Hok Ht Happ Hfld Hz Hm
+               (Hkind _ _ _ eq_refl) (Dk _ _ _ eq_refl)).
+    - (* unprotected-deletable *)
+      destruct (Da _ eq_refl) as (Hfld & Hz & Hm). destruct (eligible_statefull_inv _ _ Hel) as [kapp Happ].
+      exact (group_unprotected_deletable_no_miss_partial funcs group G posn a t kapp ap Hcons Hok Ht Happ Hfld Hz Hm
+               (Hkind _ _ _ eq_refl) (Dk _ _ _ eq_refl)).
+  Qed.
+
+  (* ... t is in the reported list *)
+  Corollary group_verdict_all_partial name checks dtype vt d :
+    In (name, checks) group_checks ->
+    Parse.assoc name detector_table = Some (dtype, vt) ->
+    Parse.assoc name danger_table = Some d ->
+    group_side d funcs group G posn a ap ->
+    eligible dtype vt t ->
+    txn_dangerous d G (posn (g_id t)) a ap fee ->
+    In (g_id t) (group_verdict funcs checks dtype vt group).
+  Proof.
+    intros Hin Htab Hd Hside Hel Hdang. apply (verdict_of_vulnerable _ _ _ _ _ t Ht).
+    exact (group_no_miss_all_partial name checks dtype vt d Hin Htab Hd Hside Hel Hdang).
+  Qed.
+
+  (* ... and a transaction that is eligible but not reported does not carry the dangerous value in any such group *)
+  Corollary group_cleared_all_partial name checks dtype vt d :
+    In (name, checks) group_checks ->
+    Parse.assoc name detector_table = Some (dtype, vt) ->
+    Parse.assoc name danger_table = Some d ->
+    group_side d funcs group G posn a ap ->
+    eligible dtype vt t ->
+    txn_vulnerable funcs checks dtype vt group t = false ->
+    ~ txn_dangerous d G (posn (g_id t)) a ap fee.
+  Proof.
+    intros Hin Htab Hd Hside Hel Hv Hdang.
+    rewrite (group_no_miss_all_partial name checks dtype vt d Hin Htab Hd Hside Hel Hdang) in Hv. discriminate.
+  Qed.
+End AllDetectors.
+
+(* non-vacuity of the uniform statement: unprotected-deletable on the two-member group of D1 *)
+Import AppGroupWitness.
+Example group_no_miss_all_witness :
+  In "U2" (group_verdict AppGroupWitness.funcsA checks_unprotected_deletable "STATEFULL" None AppGroupWitness.grpA).
+Proof.
+  assert (Ht : In U2 grpA) by (right; left; reflexivity).
+  apply (group_verdict_all_partial funcsA grpA (GA 5) posnA U2 "S" 7 0 Ht "unprotected-deletable"
+           checks_unprotected_deletable "STATEFULL" None (mkDanger (Some ("ApplDeleteApplication", 6%N, 5%N)) (Some "Sender") false)).
+  - unfold group_checks, detectors. simpl. auto 12.
+  - reflexivity.
+  - reflexivity.
+  - split; [exact w_base_ok|]. split; [|split].
+    + intros L ty oc E. inversion E; subst. exact (w_kind_ok _ 5 (or_intror (conj eq_refl eq_refl))).
+    + discriminate.
+    + exact (w_consistent_sender 5 (or_intror eq_refl)).
+  - exact (eligible_statefull U2 0 eq_refl).
+  - split; [|split].
+    + intros L ty oc E. inversion E; subst. repeat split.
+    + intros fld E. inversion E; subst. split; [reflexivity|]. split; [discriminate | reflexivity].
+    + discriminate.
 Qed.
 
 Print Assumptions group_rekey_verdict_partial.
@@ -785,3 +957,7 @@ Print Assumptions AppGroupWitness.w_unprotected_deletable.
 Print Assumptions AppGroupWitness.w_single_eq.
 Print Assumptions single_group_eq_contract_refuted.
 Print Assumptions leaves_justified_refuted.
+Print Assumptions group_no_miss_all_partial.
+Print Assumptions group_verdict_all_partial.
+Print Assumptions group_cleared_all_partial.
+Print Assumptions group_no_miss_all_witness.
